@@ -44,5 +44,10 @@ IsNumbering(N, num) == /\ DOMAIN num = N /\ num[Root] = 1
 \* C19 read literally: there is a depth-first search whose non-back edges all go from a lower to a higher number
 ValidRPO(E, N, num) == IsNumbering(N, num) /\ \E B \in BackSets(E) : \A e \in E \ B : num[e[1]] < num[e[2]]
 \* search-independent consequence used for large graphs: an edge whose target cannot reach its source is a back edge of no search
+\* a family of deep graphs with closed forms: the ladder 1 -> 2 -> ... -> n in which every node also has an edge to n (a method of n - 1
+\* consecutive `if (c) return;`).  It is acyclic, so its only valid numbering is the chain order, and n is reached from 1 directly.
+LadderEdges(n) == {<<k, k + 1>> : k \in 1..(n - 1)} \cup {<<k, n>> : k \in 1..(n - 1)}
+LadderIDom(n) == [k \in 1..n |-> IF k = 1 THEN 0 ELSE IF k = n THEN 1 ELSE k - 1]
+LadderNum(n) == [k \in 1..n |-> k]
 ForwardAcrossComponents(E, N, num) == IsNumbering(N, num) /\ \A e \in E : (e[1] \notin ReachOf(E, e[2])) => num[e[1]] < num[e[2]]
 =============================================================================
